@@ -53,6 +53,11 @@ def colliding_case(rng: random.Random) -> Dict[str, Any]:
     if rng.random() < 0.5:
         b.dispose(families.T(year, 12, 5), "0.25", 95, ttype="GIFT")
     hists = {"AAA": a.done(rng, shuffle=rng.random() < 0.5), "BBB": b.done(rng, shuffle=rng.random() < 0.5)}
+    if rng.random() < 0.3:
+        # a liquidity-pool token and a look-alike: names that differ only in a character spreadsheet programs do not allow in sheet names
+        from rpv.cli_core import rename_asset
+
+        hists = rename_asset(rename_asset(hists, "AAA", "ETH/DAI"), "BBB", "ETH_DAI")
     return {
         "hists": hists,
         "country": "us",
